@@ -20,6 +20,7 @@ class EngineC14(HistEngine):
         w_stmt = ch.choice([2, 6, 12], "w_stmt")
         w_fresh = ch.choice([0, 2, 4], "w_fresh")
         w_new = ch.choice([0, 1, 2], "w_new")
+        self._theme = ch.choice(self.theme_keys, "theme") if self.theme_keys and ch.chance(2, 3, "theme?") else None
         insts = [fmt0]
         subs: list[str] = []
         ops = []
